@@ -118,6 +118,7 @@ CHECKS = {
     },
     "C10": {
         "runs": [dict(STORAGE, entries=["H10MemStep", "H10Helpers"], bounds_quick={"recs": 2, "namelen": 3, "maxver": 9, "hrevs": 3}, bounds_thorough={"recs": 2, "namelen": 3, "maxver": 99, "hrevs": 4}),
+                 dict(pkg="./pkg/storage/driver", files=["pkg/storage/driver/h_c10_key.go"], entries=["H10Key"], bounds_quick={"keynamelen": 5}, bounds_thorough={"keynamelen": 6}),
                  dict(pkg="./pkg/storage/driver", files=["pkg/storage/driver/h_c10_backends.go"], entries=["H10Backends", "H10ReadModifyWrite"],
                       bounds_quick={"recs": 1, "maxver": 2, "labels": 4}, bounds_thorough={"recs": 2, "maxver": 2, "labels": 2})],
         "bounds": {}, "assumptions": [],
